@@ -125,6 +125,23 @@ def string_scripts(rng, n):
     return out
 
 
+def context_scripts(rng, n):
+    """Scripts that share an identical helper text but differ in the surrounding context (history/memo leaks), ports with '~',
+    run-time len() together with lists (both helper snippets)."""
+    out = []
+    helper = "def pick(flag):\n    return limit if flag else 0\n"
+    for k in range(n):
+        lim = ["10", "2.5", "7", "0.25"][k % 4]
+        port = ["COM3", "~/dev/arduino", "~root/ttyACM0", "/dev/ttyUSB0"][k % 4]
+        L = ["from Reduino import target", f'target("{port}")', "from Reduino.Communication import SerialMonitor", "from Reduino.Sensors import Ultrasonic",
+             "mon = SerialMonitor(9600)", f"limit = {lim}", helper, "level = pick(True)", "mon.write(level)"]
+        if k % 2 == 0:
+            L += ["us = Ultrasonic(2, 3)", "items = [q for q in range(3)]", "text = mon.read()", "while True:", "    mon.write(us.measure_distance())",
+                  "    mon.write(len(text))", "    mon.write(len(items))", "    mon.write(items[0])"]
+        out.append("\n".join(L) + "\n")
+    return out
+
+
 def mixed(seed_parts, n_prog=30, n_promo=20, n_dev=10):
     rng = rng_for(*seed_parts, "corpus")
     scripts = [prog.generate((*seed_parts, "corpus", i), "clean")["source"] for i in range(n_prog)]
@@ -132,4 +149,5 @@ def mixed(seed_parts, n_prog=30, n_promo=20, n_dev=10):
     scripts += device_scripts(rng, n_dev)
     scripts += lcd_scripts(rng, max(3, n_dev // 2))
     scripts += string_scripts(rng, max(3, n_dev // 2))
+    scripts += context_scripts(rng, max(8, n_dev))
     return scripts
